@@ -33,7 +33,7 @@ impl FileMetadata {
     pub fn len(&self) -> (r: FileLen) ensures r.0 == self.now_len { unimplemented!() }
 }
 pub struct PathAndMetadata { pub path: Path, pub metadata: FileMetadata }
-pub struct DedupeConfig { pub modified_before: Option<Timestamp>, pub no_check_size: bool }
+pub struct DedupeConfig { pub modified_before: Option<Timestamp>, pub no_check_size: bool, pub isolated_roots: Vec<Path>, pub match_links: bool }
 
 // ASSUMED contract of dedupe::was_modified (chrono conversions): true iff some file's modification time is later
 pub uninterp spec fn spec_was_modified(files: Seq<PathAndMetadata>, after: Timestamp) -> bool;
@@ -98,7 +98,33 @@ fn staleness_guard(files: &Vec<PathAndMetadata>, config: &DedupeConfig, log: &Lo
     ub.spec('''
     Ok(PartitionedFileGroup { _p: () })
 }
+''')
 
+    # which replicas partition works on: the initialiser of `let mut file_sub_groups` (optional expression slice)
+    def sub_groups():
+        e = src.let_init(fn, "let mut file_sub_groups =")
+        ub.spec('''
+// ASSUMED contract of FileSubGroup::group: "sgs is what it returns for (files, roots, group_by_id)" is uninterpreted (its loop
+// body is the unit subgroup_grouping)
+pub struct FileSubGroup<F> { pub files: Vec<F> }
+pub uninterp spec fn spec_is_grouping_of<F>(sgs: Seq<FileSubGroup<F>>, files: Seq<F>, roots: Seq<Path>, group_by_id: bool) -> bool;
+impl<F> FileSubGroup<F> {
+    #[verifier::external_body]
+    pub fn group(files: Vec<F>, roots: &[Path], group_by_id: bool) -> (r: Vec<FileSubGroup<F>>)
+        ensures spec_is_grouping_of(r@, files@, roots@, group_by_id)
+    { unimplemented!() }
+}
+
+// the atomic units partition decides about are the sub-groups of ALL files that passed the guards, formed with the
+// --isolate roots of the dedupe command and by file id unless --match-links
+fn partition_sub_groups(files: Vec<PathAndMetadata>, config: &DedupeConfig) -> (r: Vec<FileSubGroup<PathAndMetadata>>)
+    ensures spec_is_grouping_of(r@, files@, config.isolated_roots@, !config.match_links), // @ob C02.partition_filters.replicas_are_the_sub_groups_under_the_isolated_roots_by_file_id_unless_match_links
+{
+    ''')
+        ub.piece(Piece(e))
+        ub.spec("\n}\n")
+    ub.optional("sub-grouping call of partition", sub_groups, prefixes=["C02.partition_filters.replicas_are"])
+    ub.spec('''
 } // verus!
 fn main() {}
 ''')
@@ -107,6 +133,7 @@ fn main() {}
         "Vec::retain keeps exactly the elements for which the predicate returns true (std); the `if !config.no_check_size` guard around the 2nd retain is not part of the slice",
         "dedupe::was_modified is an uninterpreted predicate over the files and the timestamp (chrono conversions); FileMetadata::is_file/len return the file's current state",
         "the two logging blocks (`if !is_file { log.warn(..) }`, `if !len_ok { log.warn(..) }`) are dropped from the slices (format! is outside Verus)",
+        "FileSubGroup::group is an external function with an uninterpreted result (only which arguments partition passes is proved)",
         "that `files` at the bail-out are ALL files that passed the two filters, and the report timestamp itself (taken by group), are not covered",
     ]
     return ub
